@@ -234,7 +234,8 @@ def rule_snapshots_are_copies(eng, rep, rule, sinks, what):
         if kind not in ("copy", "sel", "proj", "tup", "default", "index"):
             return False
         if isinstance(info, str) and info.startswith("via"):
-            return False          # .copy() / np.array() / astype(): a fresh object
+            # .copy() / np.array() / np.copy() / astype(): a fresh object;  np.asarray & co. hand back their argument when it already is an array of the right dtype
+            return info in ("via numpy.asarray", "via numpy.asfarray", "via numpy.ascontiguousarray", "via numpy.atleast_1d", "via numpy.asanyarray")
         return True
 
     w = vfg.back(sinks, follow, stop=lambda n: n in srcs)
